@@ -698,7 +698,22 @@ func c03Case(r *Rng) (Sx, string, bool) {
 	}
 	pk := c03Play(r, items)
 	class := "valid"
-	if r.Chance(72) {
+	if outsideHL != "" && r.Chance(60) {
+		// ... and then names it as the source of a hard link that carries other metadata
+		h := &types.Stat{Path: outsideHL + "z", Mode: uint32(Pick(r, c03Perms) & 0777), Uid: Pick(r, c03Ids), Gid: Pick(r, c03Ids),
+			ModTime: c03Mtime(r), Size: 3, Linkname: outsideHL}
+		if r.Chance(30) {
+			h.Xattrs = map[string][]byte{"user.h": []byte("1")}
+		}
+		for i, x := range pk {
+			if x.L[0].Int() == 0 && len(x.L) == 2 && SxStat(x.L[1]).Path == outsideHL {
+				pk = c03Insert(pk, i+1, c03StatPk(h))
+				break
+			}
+		}
+		class = "shared-inode-link"
+	}
+	if class == "valid" && r.Chance(72) {
 		pk, class = c03Corrupt(r, pk, dest)
 		if r.Chance(12) {
 			pk, _ = c03Corrupt(r, pk, dest)
